@@ -4,6 +4,7 @@
   `partition_operation_queue_by_queue_policy` (protocol.rs).
 -/
 import GV.Proofs.EngineBasics
+import GV.Proofs.EngineClose
 namespace GV.Props.C15
 open GV
 
@@ -127,5 +128,24 @@ theorem partition_respects_policy (e : Engine) (q : List Nat) :
 
 /-- non-vacuity: offline with policy PreserveQos1Plus a subscribe is rejected and a QoS 1 publish kept -/
 example : passesPolicy (.subscribe {}) .preserveQos1Plus = false ∧ passesPolicy (.publish { qos := 1 }) .preserveQos1Plus = true := by decide
+
+/-! ### every history -/
+
+/-- **While offline, the user queue holds only what the policy keeps.**  After any history that leaves the engine without
+    an MQTT connection (Disconnected, or waiting for the CONNACK), every operation waiting in the user queue is of a kind
+    the configured offline-queue policy preserves: whatever the policy rejects has been failed - at submission, at
+    disconnection (queued, half-written, written-but-unflushed or unacknowledged) - and never waits for the next connection. -/
+theorem offline_queue_holds_only_what_policy_keeps (cfg : Config) (evs : List Event) (id : Nat) (o : Op)
+    (hs : (runEvents (Engine.new cfg) evs).1.state = .disconnected ∨ (runEvents (Engine.new cfg) evs).1.state = .pendingConnack)
+    (hq : id ∈ (runEvents (Engine.new cfg) evs).1.userQ)
+    (ho : (runEvents (Engine.new cfg) evs).1.ops.lookup id = some o) :
+    specKeeps (runEvents (Engine.new cfg) evs).1.cfg.policy o.packet = true := by
+  rw [← policy_is_the_table]
+  exact (inv2_after cfg evs).2.op hs id hq o ho
+
+/-- non-vacuity: offline, a QoS 1 publish submitted under PreserveQos1Plus waits in the user queue -/
+example :
+    let e := (runEvents (Engine.new { policy := .preserveQos1Plus }) [.user 0 (.publish { topic := [97], qos := 1 } 0 none)]).1
+    (e.state == .disconnected && e.userQ == [1] && (e.ops.lookup 1).isSome) = true := by decide
 
 end GV.Props.C15
